@@ -245,8 +245,12 @@ class Question(object):
             if error is not None:
                 self._write_error(io, error)
 
+            # Only a rejected answer is retried: the end of the input ("Aborted")
+            # or a failing prompt must end the dialogue instead of asking again.
+            answer = interviewer()
+
             try:
-                return self._validator(interviewer())
+                return self._validator(answer)
             except Exception as e:
                 error = e
 
